@@ -5,7 +5,7 @@ from __future__ import annotations
 import ast
 from typing import Dict, FrozenSet, List, Optional, Set, Tuple
 
-from ..astutil import Origins, call_name, const_num, names_in
+from ..astutil import Origins, call_name, const_num, expand_locals, names_in, with_folded
 from ..cfg import Conditions, Flow, ReachingDefs
 from ..loader import ClassInfo, FuncInfo, Program, dotted, enclosing_stmt, parent, short, walk_own
 from ..report import BAD, INFO, OK, UNDET, Instance
@@ -70,6 +70,19 @@ def _displ_type(e: ast.AST, pts: Set[str]):
     return ("ill", f"`{short(e)}` is not a length expression over the two end points")
 
 
+def dst_geobox_locals(prog: Program, f: FuncInfo) -> Set[str]:
+    """Locals of `f` holding the destination geobox of a reprojection: assigned from `<x>.output_geobox(...)` /
+    `compute_output_geobox(...)` directly or from a private helper that ends in such a call."""
+    out: Set[str] = set()
+    for n in walk_own(f.node):
+        if isinstance(n, ast.Assign) and isinstance(n.targets[0], ast.Name) and isinstance(n.value, ast.Call):
+            if call_name(n.value) in ("output_geobox", "compute_output_geobox") or any(
+                g is not f and isinstance(x, ast.Call) and call_name(x) in ("output_geobox", "compute_output_geobox") for g, x in prog.closure_nodes(f, n.value)
+            ):
+                out.add(n.targets[0].id)
+    return out
+
+
 def rule_displ(prog: Program) -> List[Instance]:
     out: List[Instance] = []
     d = prog.func("geom:densify")
@@ -94,6 +107,7 @@ def rule_displ(prog: Program) -> List[Instance]:
             cmp_found = True
             cid = f"{pf.qual}#R-DISPL"
             lhs, rhs, op = v.left, v.comparators[0], v.ops[0]
+            lhs = expand_locals(pf.node, lhs, keep={p1, p2})
             t = _displ_type(lhs, {p1, p2})
             if t[0] == "ill":
                 out.append(Instance("R-DISPL", cid, BAD, f"edge-length test is ill-typed: {t[1]}; whether an edge is densified depends on where it lies, not how long it is", pf.where(r)))
@@ -118,7 +132,7 @@ def rule_displ(prog: Program) -> List[Instance]:
                     neg = isinstance(n.test, ast.UnaryOp) and isinstance(n.test.op, ast.Not)
                     c = n.test.operand if neg else n.test
                     args_ok = isinstance(c, ast.Call) and len(c.args) == 2 and short(c.args[0]) != short(c.args[1])
-                    interp = any(isinstance(x, ast.Call) and call_name(x) == "interpolate" for x in ast.walk(n))
+                    interp = any(isinstance(x, ast.Call) and call_name(x) == "interpolate" for _f, x in prog.closure_nodes(d, n))
                     out.append(Instance("R-DISPL", f"{d.qual}#use-of-{pf.name}", OK if neg and args_ok and interp else BAD,
                                         "points are interpolated exactly when the edge is not short enough" if neg and args_ok and interp else f"`if {short(n.test)}` does not add points for long edges", d.where(n)))
     if not cmp_found:
@@ -136,7 +150,8 @@ def rule_displ(prog: Program) -> List[Instance]:
         second = short(tgt.elts[1]) if isinstance(tgt, ast.Tuple) and len(tgt.elts) == 2 else None
         ok = isinstance(last, ast.Expr) and isinstance(last.value, ast.Call) and call_name(last.value) == "append" and short(last.value.args[0]) == second
         z = lp.iter
-        zip_ok = isinstance(z, ast.Call) and call_name(z) == "zip" and len(z.args) == 2 and short(z.args[0]).endswith("[:-1]") and short(z.args[1]).endswith("[1:]")
+        # consecutive pairs: zip(c[:-1], c[1:]) or zip(c, c[1:]) (zip stops at the shorter one)
+        zip_ok = isinstance(z, ast.Call) and call_name(z) == "zip" and len(z.args) == 2 and short(z.args[1]).endswith("[1:]") and short(z.args[0]) in (short(z.args[1])[:-4] + "[:-1]", short(z.args[1])[:-4])
         ok = ok and zip_ok
     out.append(Instance("R-DISPL", f"{d.qual}#vertices-retained", OK if ok else BAD,
                         "first vertex seeds the output and every edge's end vertex is appended unconditionally" if ok else "original vertices are not all retained in order (seed / unconditional append of the end point / consecutive pairs)", d.where()))
@@ -153,17 +168,20 @@ def rule_displ(prog: Program) -> List[Instance]:
                             "added vertices lie at multiples of the resolution strictly inside the edge" if ok else "interpolation loop no longer steps by the resolution from the resolution up to the edge length", d.where(w)))
     # segmented: all shapely kinds dispatched, polygon interiors densified
     seg = prog.func("geom:Geometry.segmented")
-    kinds = {c.value for nf in seg.nested.values() for c in ast.walk(nf.node) if isinstance(c, ast.Constant) and isinstance(c.value, str) and c.value[:1].isupper() and " " not in c.value}
+    # the dispatch lives in a nested closure or in a private helper segmented() calls
+    seg_parts = {g.qual: g for g, _n in prog.closure_nodes(seg) if g is not seg}
+    seg_parts.update({nf.qual: nf for nf in seg.nested.values()})
+    kinds = {c.value for nf in seg_parts.values() for c in ast.walk(nf.node) if isinstance(c, ast.Constant) and isinstance(c.value, str) and c.value[:1].isupper() and " " not in c.value}
     need = {"Point", "MultiPoint", "GeometryCollection", "MultiPolygon", "MultiLineString", "LineString", "LinearRing", "Polygon"}
     out.append(Instance("R-EXHAUST", f"{seg.qual}#geometry-kinds", OK if need <= kinds else BAD,
                         "all eight shapely geometry kinds are dispatched" if need <= kinds else f"geometry kinds not handled: {sorted(need - kinds)}", seg.where()))
     poly_ok = False
-    for nf in seg.nested.values():
+    for nf in seg_parts.values():
         for n in walk_own(nf.node):
             if isinstance(n, ast.Call) and call_name(n) == "Polygon" and len(n.args) == 2:
-                a0, a1 = n.args
+                a0, a1 = (expand_locals(nf.node, a) for a in n.args)  # rings may be named locals first
                 poly_ok = has_call(a0, "densify") and "exterior" in short(a0) and has_call(a1, "densify") and "interiors" in short(a1)
-                res_ok = all(short(c.args[1]) == "resolution" for c in ast.walk(n) if isinstance(c, ast.Call) and call_name(c) == "densify" and len(c.args) > 1)
+                res_ok = all(short(c.args[1]) == "resolution" for a_ in (a0, a1) for c in ast.walk(a_) if isinstance(c, ast.Call) and call_name(c) == "densify" and len(c.args) > 1)
                 poly_ok = poly_ok and res_ok
     out.append(Instance("R-DISPL", f"{seg.qual}#polygon-rings", OK if poly_ok else BAD,
                         "exterior and every interior ring are densified with the same resolution" if poly_ok else "polygon branch does not densify both the exterior and the interior rings with the resolution", seg.where()))
@@ -347,7 +365,13 @@ def rule_lattice(prog: Program) -> List[Instance]:
                         ok = kws.get("top") == l and kws.get("bottom") == l and kws.get("left", "").endswith(".left") and kws.get("right", "").endswith(".right")
                         out.append(Instance("R-LATTICE", f"{gi.qual}#empty-y", OK if ok else BAD, "empty y-range collapses to zero height at bottom" if ok else f"empty y-range normalisation builds {kws}", gi.where(c)))
     if n_fix < 2:
-        out.append(Instance("R-LATTICE", f"{gi.qual}#empty-normalisation", BAD, "intersection of disjoint geoboxes is no longer normalised to an empty geobox on both axes", gi.where()))
+        # some other spelling of the normalisation (one rebuild guarded by both comparisons, conditional expressions per bound ..)?
+        def _cmp_pair(c: ast.AST, a: str, b: str) -> bool:
+            return isinstance(c, ast.Compare) and len(c.ops) == 1 and isinstance(c.ops[0], (ast.Gt, ast.GtE, ast.Lt, ast.LtE)) and {a, b} <= {short(x).split(".")[-1] for x in [c.left, c.comparators[0]]}
+        other = any(_cmp_pair(c, "left", "right") for _g, c in prog.closure_nodes(gi)) and any(_cmp_pair(c, "bottom", "top") for _g, c in prog.closure_nodes(gi))
+        out.append(Instance("R-LATTICE", f"{gi.qual}#empty-normalisation", UNDET if other else BAD,
+                            "both axes compare their lower with their upper bound, but not in the two-rebuild form this clause reads" if other else
+                            "intersection of disjoint geoboxes is no longer normalised to an empty geobox on both axes", gi.where()))
     for q in ("geobox:geobox_union_conservative", "geobox:geobox_intersection_conservative"):
         f = prog.func(q)
         stream = f.param_names()[0]
@@ -589,23 +613,42 @@ def rule_fill(prog: Program) -> List[Instance]:
             ok2 = isinstance(kv, ast.Name) and kv.id == kw
             out.append(Instance("R-FILL", f"{d.qual}#forward:{kw}", OK if ok2 else BAD, f"{kw} forwarded" if ok2 else f"{kw} not forwarded to the warp as {kw}", d.where(n)))
     rf = prog.func("_dask:resolve_fill_value")
-    cond = Conditions(rf.body)
-    seq = []
-    for n in rf.node.body:
-        if isinstance(n, ast.If):
-            seq.append((short(n.test), short(n.body[0]) if n.body else ""))
-        elif isinstance(n, ast.Return):
-            seq.append(("else", short(n)))
     pp = rf.param_names()
-    ok = (
-        len(seq) >= 4
-        and seq[0][0] == f"{pp[0]} is not None" and pp[0] in seq[0][1]
-        and seq[1][0] == f"{pp[1]} is not None" and pp[1] in seq[1][1]
-        and "floating" in seq[2][0] and "nan" in seq[2][1].lower()
-        and seq[3][0] == "else" and seq[3][1].endswith("(0)")
-    )
-    out.append(Instance("R-FILL", f"{rf.qual}#precedence", OK if ok else BAD,
-                        "fill = dst_nodata, else src_nodata, else NaN for floats, else 0" if ok else f"fill precedence is {seq}", rf.where()))
+    # order in which a configured value wins: a walk over the top-level statements collects, in program order, which
+    # parameter a `return` under `<p> is not None` hands back (also through `for v in (a, b): if v is not None: return ..v..`)
+    events: List[str] = []
+
+    def _notnone_param(t: ast.AST) -> Optional[str]:
+        if isinstance(t, ast.Compare) and len(t.ops) == 1 and isinstance(t.ops[0], ast.IsNot) and isinstance(t.left, ast.Name) and isinstance(t.comparators[0], ast.Constant) and t.comparators[0].value is None:
+            return t.left.id
+        return None
+
+    def _walk(body: List[ast.stmt], alias: Dict[str, str]) -> None:
+        for n in body:
+            if isinstance(n, ast.If):
+                v = _notnone_param(n.test)
+                rets = [r for x in n.body for r in ast.walk(x) if isinstance(r, ast.Return) and r.value is not None]
+                if v is not None and rets and v in names_in(rets[0].value):
+                    events.append(alias.get(v, v))
+                elif any(isinstance(c, ast.Attribute) and c.attr == "floating" for c in ast.walk(n.test)) or "nan" in short(n, 200).lower():
+                    events.append("default")
+                else:
+                    _walk(n.body, alias)
+                    _walk(n.orelse, alias)
+            elif isinstance(n, ast.For) and isinstance(n.target, ast.Name) and isinstance(n.iter, (ast.Tuple, ast.List)) and all(isinstance(e, ast.Name) for e in n.iter.elts):
+                for e in n.iter.elts:
+                    _walk(n.body, {**alias, n.target.id: e.id})  # type: ignore[attr-defined]
+            elif isinstance(n, ast.Return):
+                events.append("default")
+
+    _walk(rf.node.body, {})
+    ev_p = [e for e in events if e in pp[:2]]
+    if set(ev_p) != set(pp[:2]):
+        out.append(Instance("R-FILL", f"{rf.qual}#precedence", UNDET, f"could not read the order in which {pp[0]} / {pp[1]} win from the statements of resolve_fill_value (events: {events})", rf.where()))
+    else:
+        ok = ev_p[:2] == pp[:2] and "default" in events and events.index("default") > max(i for i, e in enumerate(events) if e in pp[:2])
+        out.append(Instance("R-FILL", f"{rf.qual}#precedence", OK if ok else BAD,
+                            "fill = dst_nodata, else src_nodata, else the dtype's default (NaN for floats, else 0)" if ok else f"fill precedence is {events}: the destination nodata must win over the source nodata, defaults come last", rf.where()))
     dr = prog.func("_dask:_dask_rio_reproject")
     fv = [n for n in walk_own(dr.node) if isinstance(n, ast.Call) and call_name(n) == "resolve_fill_value"]
     ok = bool(fv) and [short(a) for a in fv[0].args[:2]] == ["dst_nodata", "src_nodata"]
@@ -719,7 +762,7 @@ def rule_sibling(prog: Program) -> List[Instance]:
     out.append(Instance("R-SIBLING", f"{f.qual}#grid_mapping", OK if gm else BAD, "output encoding names the CRS coordinate" if gm else "output encoding['grid_mapping'] is not set", f.where()))
     # dims / shape are spliced: leading axes of the source + the destination's two + trailing axes of the source
     src_p = f.param_names()[0]
-    dst_names = {n.targets[0].id for n in walk_own(f.node) if isinstance(n, ast.Assign) and isinstance(n.targets[0], ast.Name) and isinstance(n.value, ast.Call) and call_name(n.value) == "output_geobox"}
+    dst_names = dst_geobox_locals(prog, f)
     dst_names |= {n.targets[0].id for n in walk_own(f.node) if isinstance(n, ast.Assign) and isinstance(n.targets[0], ast.Name) and isinstance(n.value, ast.Name) and n.value.id in f.param_names()[1:2]}
 
     def _src_slice(e: ast.AST):
@@ -850,7 +893,10 @@ def rule_keys(prog: Program) -> List[Instance]:
         if isinstance(n, ast.Call) and call_name(n) == "from_gdal":
             call = [short(a) for a in n.args]
     ok = unpack is not None and call == unpack
-    out.append(Instance("R-KEYS", f"{gt.qual}#gdal-order", OK if ok else BAD,
+    if unpack is None or call is None:
+        out.append(Instance("R-KEYS", f"{gt.qual}#gdal-order", UNDET, "the six numbers are not unpacked into six names / not passed to Affine.from_gdal by name: nothing to compare", gt.where()))
+    else:
+      out.append(Instance("R-KEYS", f"{gt.qual}#gdal-order", OK if ok else BAD,
                         "six GeoTransform numbers go to Affine.from_gdal in the order they were parsed" if ok else f"parsed as {unpack} but passed to from_gdal as {call}", gt.where()))
     mk = prog.func(f"{mod}:_mk_crs_coord")
     ok = any(isinstance(n, ast.Call) and call_name(n) == "to_gdal" and short(n.func.value) == "transform" for n in walk_own(mk.node))
@@ -907,7 +953,7 @@ def rule_signrole(prog: Program) -> List[Instance]:
             pairs[lo] = (lo, hi, n.value)
             pairs[hi] = (lo, hi, n.value)
     n_i = 0
-    for n in walk_own(f.node):
+    for n in with_folded(walk_own(f.node)):
         if isinstance(n, ast.Assign) and isinstance(n.value, ast.IfExp) and isinstance(n.value.test, ast.Compare) and isinstance(n.value.test.left, ast.Name):
             t = n.value.test
             pos = _sign_test(t, t.left.id)
@@ -929,7 +975,7 @@ def rule_signrole(prog: Program) -> List[Instance]:
                                 else (f"`{short(n)}`: positive resolution must pick the lower edge `{lo}`, negative the upper edge `{hi}`" if not ok else f"`{short(n)}` mixes axes {sorted(axes)}"), f.where(n)))
     # an interval whose edge is picked without looking at the sign of the resolution
     used_cond = set()
-    for n in walk_own(f.node):
+    for n in with_folded(walk_own(f.node)):
         if isinstance(n, ast.Assign) and isinstance(n.value, ast.IfExp):
             used_cond |= names_in(n.value.body) | names_in(n.value.orelse)
     seen_pairs = {v[:2] for v in pairs.values()}
@@ -978,8 +1024,15 @@ def rule_signrole(prog: Program) -> List[Instance]:
                                 deps |= names_in(d)
                         if {o_nm, c_nm, resp} <= deps:
                             neg_ok = True
-    out.append(Instance("R-SIGNROLE", f"{se.qual}#positive-resolution", OK if pos_ok else BAD, "positive resolution snaps directly" if pos_ok else "positive-resolution branch no longer returns the direct snap", se.where()))
-    out.append(Instance("R-SIGNROLE", f"{se.qual}#negative-resolution", OK if neg_ok else BAD,
+    if not any(isinstance(n, ast.Call) and call_name(n) == "_snap_edge_pos" for n in walk_own(se.node)):
+        # the positive-resolution helper was folded into this function: the two clauses below are written against the
+        # call shape and decide nothing here
+        out.append(Instance("R-SIGNROLE", f"{se.qual}#snap-edge-shape", UNDET, "no call of _snap_edge_pos: edge selection is not delegated to the positive-resolution helper", se.where()))
+        pos_ok = neg_ok = None  # type: ignore[assignment]
+    if pos_ok is not None:
+      out.append(Instance("R-SIGNROLE", f"{se.qual}#positive-resolution", OK if pos_ok else BAD, "positive resolution snaps directly" if pos_ok else "positive-resolution branch no longer returns the direct snap", se.where()))
+    if neg_ok is not None:
+      out.append(Instance("R-SIGNROLE", f"{se.qual}#negative-resolution", OK if neg_ok else BAD,
                         "negative resolution snaps with |res| and moves the origin to the upper edge (origin + count*|res|)" if neg_ok else "negative-resolution branch does not snap with |res| and shift the origin by count*|res| to the upper edge", se.where()))
 
     # snap_grid(x0, x1, res, off_pix, tol)
@@ -1034,7 +1087,8 @@ def rule_signrole(prog: Program) -> List[Instance]:
                             back = True
                 out.append(Instance("R-SIGNROLE", f"{sg.qual}#anchor-offset-out", OK if back else BAD, "anchor offset added back to the snapped origin" if back else "anchor offset is not added back to the snapped origin", sg.where(n)))
                 offd = [x.value for x in walk_own(sg.node) if isinstance(x, ast.Assign) and short(x.targets[0]) == off_nm]
-                oku = bool(offd) and isinstance(offd[0], ast.BinOp) and isinstance(offd[0].op, ast.Mult) and offp in names_in(offd[0]) and any(isinstance(x, ast.Call) and call_name(x) == "abs" and resp in names_in(x) for x in ast.walk(offd[0]))
+                offx = expand_locals(sg.node, offd[0], keep={offp, resp}) if offd else None  # `pix = abs(res); off = off_pix * pix`
+                oku = offx is not None and isinstance(offx, ast.BinOp) and isinstance(offx.op, ast.Mult) and offp in names_in(offx) and any(isinstance(x, ast.Call) and call_name(x) == "abs" and resp in names_in(x) for x in ast.walk(offx))
                 out.append(Instance("R-SIGNROLE", f"{sg.qual}#anchor-offset-units", OK if oku else BAD, "anchor fraction converted to CRS units with |res|" if oku else "anchor fraction is not scaled by |res|", sg.where()))
     return out
 
@@ -1056,9 +1110,24 @@ def rule_exhaust(prog: Program) -> List[Instance]:
                 for c in ast.walk(n.slice):
                     if isinstance(c, ast.Constant) and isinstance(c.value, str):
                         lits.add(c.value)
-    handled = {k.value for n in walk_own(na.node) if isinstance(n, ast.Dict) for k in n.keys if isinstance(k, ast.Constant)}
+    dicts = [n for n in walk_own(na.node) if isinstance(n, ast.Dict)]
+    # the table may be a module-level constant the function indexes
+    for n in walk_own(na.node):
+        if isinstance(n, ast.Name) and isinstance(n.ctx, ast.Load):
+            for v in prog.module("geobox").assigns.get(n.id, []):
+                dicts += [d for d in ast.walk(v) if isinstance(d, ast.Dict)]
+    handled = {k.value for n in dicts for k in n.keys if isinstance(k, ast.Constant)}
+    # string comparisons `anchor == "edge"` / `anchor in ("center", "centre")` handle a literal too
+    for n in walk_own(na.node):
+        if isinstance(n, ast.Compare):
+            handled |= {c.value for x in n.comparators for c in ast.walk(x) if isinstance(c, ast.Constant) and isinstance(c.value, str)}
+    if not handled:
+        out.append(Instance("R-EXHAUST", f"{na.qual}#anchor-literals", UNDET, "no literal table or comparison found in _norm_anchor", na.where()))
     ok = bool(lits) and lits <= handled
-    out.append(Instance("R-EXHAUST", f"{na.qual}#anchor-literals", OK if ok else BAD, f"every anchor literal {sorted(lits)} is mapped" if ok else f"anchor literals not handled: {sorted(lits - handled)}", na.where()))
+    if handled:
+      pass
+    if handled:
+      out.append(Instance("R-EXHAUST", f"{na.qual}#anchor-literals", OK if ok else BAD, f"every anchor literal {sorted(lits)} is mapped" if ok else f"anchor literals not handled: {sorted(lits - handled)}", na.where()))
     # mapping targets:  center/centre -> CENTER, edge/default -> EDGE, floating -> FLOATING
     for n in walk_own(na.node):
         if isinstance(n, ast.Dict):
@@ -1084,9 +1153,29 @@ def rule_exhaust(prog: Program) -> List[Instance]:
                 want = {"EDGE": [0, 0], "CENTER": [0.5, 0.5]}.get(which)
                 ok = want is not None and vals == want
                 out.append(Instance("R-EXHAUST", f"{fb.qual}#snap:{which}", OK if ok else BAD, f"{which} snaps at pixel fraction {vals}" if ok else f"{which} snaps at {vals}", fb.where(n)))
-    tight = [n for n in fb.node.body if isinstance(n, ast.If) and short(n.test) == "tight"]
-    ok = bool(tight) and any(short(a) == "anchor = AnchorEnum.FLOATING" for a in tight[0].body)
-    out.append(Instance("R-EXHAUST", f"{fb.qual}#tight-floating", OK if ok else BAD, "tight=True turns snapping off" if ok else "tight=True no longer forces the floating anchor", fb.where()))
+    # tight=True turns snapping off: somewhere in from_bbox or the private helpers it hands `tight` to, a branch taken when
+    # `tight` is true selects the floating anchor (AnchorEnum.FLOATING) or no snap fraction at all (None)
+    def _floating(v: Optional[ast.AST]) -> bool:
+        return v is not None and ((isinstance(v, ast.Constant) and v.value is None) or short(v).endswith("FLOATING"))
+
+    tight_tests = []
+    ok = False
+    for g, n in prog.closure_nodes(fb):
+        if isinstance(n, ast.If) and "tight" in g.param_names():
+            t = n.test
+            pos = (isinstance(t, ast.Name) and t.id == "tight") or (isinstance(t, ast.BoolOp) and isinstance(t.op, ast.Or) and any(isinstance(v, ast.Name) and v.id == "tight" for v in t.values))
+            if pos:
+                tight_tests.append(n)
+                pn = parent(n)
+                if isinstance(pn, ast.If) and n in pn.orelse:
+                    continue  # an `elif`: an earlier arm (an explicit XY anchor ...) pre-empts it, tight does not *force* floating
+                for a in n.body:
+                    if (isinstance(a, ast.Assign) and _floating(a.value)) or (isinstance(a, ast.Return) and _floating(a.value)):
+                        ok = True
+    if not tight_tests:
+        out.append(Instance("R-EXHAUST", f"{fb.qual}#tight-floating", UNDET, "no branch on `tight` found in from_bbox or its private helpers", fb.where()))
+    else:
+        out.append(Instance("R-EXHAUST", f"{fb.qual}#tight-floating", OK if ok else BAD, "tight=True turns snapping off" if ok else "tight=True no longer forces the floating anchor", fb.where()))
     # RoiTiles protocol members implemented by both tilings
     proto = prog.cls("roi:RoiTiles")
     members = set(proto.methods)
